@@ -70,3 +70,7 @@ PENDING.pop("C16", None)
 _p("C14", "other",
    "Static necessary conditions of 'no program is accepted with a reference that cannot be honoured': every comparison of an index or slice bound with a register size that guards a raise in core/register.py has a matching lower-bound comparison on the same quantity (two-sidedness; the lexer's INT pattern is checked to admit a sign); duplicate-definition, unknown-identifier, unknown-gate, arity and validate-all checks dominate the constructions they protect (CFG must-pass-through); Parameter.validate is exhaustive over ParamType with reject-by-default branches; the subscript in build_array_item is applied only to indexable context values; precedence of gate sources in update_gates. Does not decide 'at the latest when the value becomes known' for all programs.")
 PENDING.pop("C14", None)
+
+_p("C13", "other",
+   "Static necessary conditions of 'used-qubit analysis is exact; overlapping parallel branches are rejected': exhaustiveness of the used-qubit visitor family over nodes that contain statements or qubits (its default is silent) and visiting of every child container; the collision raise depends on the disjoint flag and the intersection, and the emulator's walker passes a flag that follows block.parallel; idle/busy definition table and expansion of the `all` marker; merge by set union with a symmetric test; register sizes that may be let constants are converted before integer use; macro-call arguments are resolved in the caller's scope before entering the callee's. Does not decide exactness of the index sets for all alias chains (arithmetic).")
+PENDING.pop("C13", None)
